@@ -21,8 +21,8 @@ from ..tlc import MachineryError, read_emitted, run_tlc, workdir
 
 DATA = {"x": [1.0, 2.0, 3.0], "z": [4.0, 5.0, 6.0], "I": [50.0, 60.0, 70.0], "q": [2.0, 2.0, 5.0]}
 COLNAME = {"x": "x", "z": "z", "I": "I", "q": "x y"}
-# "q" stands for any column whose name must be quoted: with a blank, a python keyword, a leading digit, a python constant
-QSPELLINGS = ["x y", "class", "1a", "None"]
+# "q" stands for any column whose name must be quoted: with a blank, a python keyword, a leading digit, a python constant, a dot
+QSPELLINGS = ["x y", "class", "1a", "None", "p.q"]
 BYKEY = {}
 
 
@@ -51,7 +51,10 @@ def frame_for(names):
 
 def base_name(v) -> str:
     """variables of attribute access are reported as dotted paths (z.T.T): the object read is the part before the first dot"""
-    return str(v).split(".", 1)[0]
+    s, q = str(v), COLNAME["q"]
+    if s == q or s.startswith(q + "."):
+        return q            # (a quoted name may hold dots of its own)
+    return s.split(".", 1)[0]
 
 
 def observe(formula, data_names, ctx_names, cform="dict"):
